@@ -15,7 +15,7 @@ ASSUMPTIONS = [
     "kappa/Omega have a jump at ratio 1.1 (1.0 below, the ratio above): equality of kappa(s) and kappa(T(s)) is asserted unless the ratio is within 1e-9 of 1.0 or 1.1",
 ]
 OUTSIDE = ["sequence lengths above the bound"]
-NMAX = {"quick": 7, "thorough": 10}
+NMAX = {"quick": 7, "thorough": 9}
 NSCD = {"quick": 10, "thorough": 20}
 ITEM_TIMEOUT = {"quick": 600, "thorough": 3000}
 TRANSFORMS = ["respell", "reverse", "invert"]
